@@ -54,7 +54,7 @@ def lam_grid(rng, nrand):
 
 def param_grid(rng, kind, nrand):
     if kind not in HAS_LMBDA:
-        return [(1.0, 0.0)]
+        return [(1.0, 0.0)] * max(2, nrand // 8)   # parameter-free: several data batches
     if kind == "BoxCoxShift":
         lams = lam_grid(rng, nrand)
         return [(l, float(s)) for l in lams for s in rng.choice([0.0, 1.5, -2.0, 0.1], size=2, replace=False)]
@@ -129,8 +129,8 @@ def gen_data(rng, rng_tuple, n):
 
 # ------------------------------------------------------------------------------------------ correspondence
 def corr_normalizers(ctx, rng, out):
-    nrand = ctx.scale(6, 60)
-    ndata = ctx.scale(10, 40)
+    nrand = ctx.scale(60, 400)
+    ndata = ctx.scale(40, 80)
     ops, meta = [], []
     for kind in KINDS:
         for (l, s) in param_grid(rng, kind, nrand):
@@ -240,7 +240,7 @@ def corr_pipeline(ctx, rng, out):
     """apply_mean_norm_trend / remove_trend_norm_mean, Field.__call__(field=raw), SRF post_process, Krige._krige_cond"""
     import gstools as gs
     from gstools.normalizer import apply_mean_norm_trend, remove_trend_norm_mean
-    n = ctx.scale(60, 600)
+    n = ctx.scale(800, 6000)
     ops, meta = [], []
     for t in range(n):
         kind = KINDS[t % len(KINDS)]
@@ -428,9 +428,9 @@ def search(ctx, deep=False):
     rng = np.random.RandomState(ctx.seed + 18)
     viol, ev = [], 0
     obs = {"declared_range_wider_than_image": 0}
-    nrand = ctx.scale(8, 80) * (3 if deep else 1)
-    npts = ctx.scale(40, 200)
-    n_mp = ctx.scale(6, 25)
+    nrand = ctx.scale(60, 400) * (3 if deep else 1)
+    npts = ctx.scale(100, 300)
+    n_mp = ctx.scale(8, 25)
 
     def add(key, what, case):
         if sum(1 for v in viol if v["key"] == key) < 3:
@@ -603,7 +603,7 @@ def search(ctx, deep=False):
                             add(f"api:{kind}:loglikelihood-not-profile-max", "another (mu, sigma) beats the reported loglikelihood",
                                 dict(data=dat.tolist(), ll=ll, other=other, mu=mu2, sd=sd2, **case0))
     # --- fit: result is a local maximum of the log-likelihood (sanity only)
-    nfit = ctx.scale(3, 12)
+    nfit = ctx.scale(4, 25)
     for kind in ("BoxCox", "YeoJohnson", "Modulus", "Manly"):
         for t in range(nfit):
             dat = np.exp(rng.normal(0.3, 0.5, size=40)) if kind == "BoxCox" else rng.gamma(2.0, 1.0, size=40) - 1.0
@@ -627,7 +627,7 @@ def search(ctx, deep=False):
                 add(f"api:{kind}:fit-state", "fit() result differs from the stored parameter", dict(kind=kind))
     # --- field pipelines on the real API (independent numpy oracle for the transforms via normalizer instance of a
     #     *fresh* object + explicit composition)
-    npipe = ctx.scale(12, 80) * (2 if deep else 1)
+    npipe = ctx.scale(120, 1200) * (2 if deep else 1)
     from gstools.normalizer import remove_trend_norm_mean
     for t in range(npipe):
         kind = KINDS[int(rng.randint(0, len(KINDS)))]
@@ -695,13 +695,18 @@ def search(ctx, deep=False):
         yj = make("YeoJohnson", -1.0, 0.0)
         w1 = float(yj.denormalize([2.0])[0])
         w2 = float(yj.normalize([w1])[0])
+        # witness of `derivative_full_false`: inside the isclose band the reported derivative keeps lmbda
+        mb = make("Manly", 1e-9, 0.0)
+        w3 = float(mb.derivative([1.0])[0])
+        w4 = float((mb.normalize([1.0 + 1e-3])[0] - mb.normalize([1.0 - 1e-3])[0]) / 2e-3)
     ev += 1
-    witness_ok = (w1 == -2.0) and abs(w2 + 26.0 / 3.0) < 1e-12
+    witness_ok = (w1 == -2.0) and abs(w2 + 26.0 / 3.0) < 1e-12 and abs(w3 - np.exp(1e-9)) < 1e-15 and abs(w4 - 1.0) < 1e-12
     if not witness_ok:
-        ctx.log("note: witness of norm_denorm_full_false no longer replays on the implementation:", w1, w2)
+        ctx.log("note: a Lean witness (norm_denorm_full_false / derivative_full_false) no longer replays on the implementation:", w1, w2, w3, w4)
     return {"evaluations": ev, "violations": viol,
             "summary": f"{ev} real-API evaluations: round trips, range image, monotone grids, derivative vs FD and mpmath formula, "
                        f"masking probes, likelihood vs scipy.stats Gaussian + profile maximality, fit local max, SRF/Krige pipelines; "
                        f"{len(viol)} violations; observation: {obs['declared_range_wider_than_image']} YeoJohnson/Modulus parameter "
                        f"sets whose declared denormalize_range (-inf, inf) is wider than the image (witness lmbda=-1, y=2 -> "
-                       f"{w1}, back {w2:.6g}; replays={witness_ok})"}
+                       f"{w1}, back {w2:.6g}); in-band derivative witness Manly(1e-9).derivative(1)={w3!r} vs slope {w4!r}; "
+                       f"Lean witnesses replay on the implementation: {witness_ok}"}
